@@ -220,7 +220,15 @@ pub fn build(tok: &Value, k: &Keys) -> Built {
         entries.push(Value::Object(sigobj));
         top.insert("signatures".into(), json!(entries));
       }
-      serde_json::to_vec(&Value::Object(top)).unwrap()
+      let mut text = serde_json::to_string(&Value::Object(top)).unwrap();
+      if tok.get("escapes").and_then(|v| v.as_str()) == Some("protected_member") {
+        // the same member value, spelled with a JSON escape sequence for its first character
+        let plain = format!("\"protected\":\"{prot_seg}\"");
+        let first = prot_seg.chars().next().unwrap();
+        let escaped = format!("\"protected\":\"\\u{:04x}{}\"", first as u32, &prot_seg[1..]);
+        text = text.replacen(&plain, &escaped, 1);
+      }
+      text.into_bytes()
     }
   };
   Built {
@@ -285,6 +293,27 @@ fn run_row(case: &Value, k: &Keys) -> Vec<(String, Value, Value)> {
       return diffs;
     }
     Ok(item) => {
+      if !want_decoded && case.get("refusal").and_then(|v| v.as_str()) == Some("escaped_member") {
+        // the reference refuses escaped members; a decoder that takes them must bind the signature all the same
+        diffs.push(("~escaped_member_accepted".into(), json!("rejected"), json!("decoded")));
+        let si = [bt.prot_seg.as_bytes(), b".", &bt.payload].concat();
+        if item.signing_input() != si.as_slice() {
+          diffs.push(("signing_input".into(), json!(String::from_utf8_lossy(&si)), json!(String::from_utf8_lossy(item.signing_input()))));
+        }
+        if item.claims() != bt.claims.as_slice() {
+          diffs.push(("claims".into(), json!(String::from_utf8_lossy(&bt.claims)), json!(String::from_utf8_lossy(item.claims()))));
+        }
+        let key = caller_key(tok, k);
+        let r = match alg_of(s(&tok["alg"])) {
+          JwsAlgorithm::EdDSA => item.verify(&EdDSAJwsVerifier::default(), &key),
+          _ => item.verify(&EcDSAJwsVerifier::default(), &key),
+        };
+        let bound = s(&tok["sig"]) == "over_SI" && s(&tok["algAt"]) == "protected" && s(&tok["keyAlg"]) != "other";
+        if r.is_ok() && !bound {
+          diffs.push(("verified_unbound".into(), json!("refused"), json!("verified")));
+        }
+        return diffs;
+      }
       if !want_decoded {
         diffs.push(("decode_accepted".into(), json!("rejected: not exactly one payload source"), json!("decoded")));
         return diffs;
@@ -319,6 +348,23 @@ fn run_row(case: &Value, k: &Keys) -> Vec<(String, Value, Value)> {
       for (alg, si_seen, sig_seen, key_seen) in seen.iter() {
         if alg != s(&tok["alg"]) || si_seen != &si || Some(sig_seen.as_slice()) != decode_b64(&bt.sig_seg).ok().as_deref() || key_seen != &serde_json::to_string(&key).unwrap() {
           diffs.push(("verifier_input".into(), json!({"alg": tok["alg"], "si": String::from_utf8_lossy(&si)}), json!({"alg": alg, "si": String::from_utf8_lossy(si_seen)})));
+        }
+      }
+      // an algorithm pinned on the key that is not the header's must refuse, however the pin is spelled (a name of another
+      // JWS algorithm, of a non-JWS algorithm, a different case, the curve name, the empty string)
+      if s(&tok["keyAlg"]) == "other" {
+        for pin in ["ECDH-ES", "ECDH-ES+A256KW", &s(&tok["alg"]).to_lowercase(), "Ed25519", "", "none"] {
+          let mut pinned = k.public_jwk(s(&tok["alg"]));
+          pinned.set_alg(pin.to_string());
+          if let Ok(it) = decode_nth(ser, &bt.token, bt.detached.as_deref(), skip) {
+            let r = match alg_of(s(&tok["alg"])) {
+              JwsAlgorithm::EdDSA => it.verify(&EdDSAJwsVerifier::default(), &pinned),
+              _ => it.verify(&EcDSAJwsVerifier::default(), &pinned),
+            };
+            if r.is_ok() {
+              diffs.push(("verified_unbound/key_pin".into(), json!({"pin": pin, "header_alg": tok["alg"]}), json!("verified")));
+            }
+          }
         }
       }
       let want_verified = s(&case["outcome"]) == "verified";
